@@ -39,20 +39,25 @@ pub fn hash_hook(data: &[u8]) -> Option<String> {
             if bytes_eq(&HASH_INPUTS[i], data) { return Some(HASH_DIGESTS[i].clone()); }
             i += 1;
         }
-        let mut d = String::with_capacity(DIGEST_LEN);
+        // built from bytes: String::push(char) would make the length symbolic (len_utf8)
+        let mut dv: Vec<u8> = Vec::with_capacity(DIGEST_LEN);
         let mut k = 0;
         while k < DIGEST_LEN {
             let b: u8 = kani::any();
             kani::assume(b >= b'a' && b <= ALPHA_MAX);
-            d.push(b as char);
+            dv.push(b);
             k += 1;
         }
+        let d = String::from_utf8_unchecked(dv);
         let mut j = 0;
         while j < HASH_DIGESTS.len() {
             kani::assume(!bytes_eq(HASH_DIGESTS[j].as_bytes(), d.as_bytes()));
             j += 1;
         }
-        HASH_INPUTS.push(data.to_vec());
+        let mut iv: Vec<u8> = Vec::with_capacity(data.len());
+        let mut q = 0;
+        while q < data.len() { iv.push(data[q]); q += 1; }
+        HASH_INPUTS.push(iv);
         HASH_DIGESTS.push(d.clone());
         Some(d)
     }
